@@ -1003,7 +1003,7 @@ class System:
                     pinp = self._g[n]._get_pri_inp(pstate, vv)
                     if pinp != -1 and len(p) > 1:
                         vi = v[p[pinp]]
-                        pn = self._get_parent_name(p[pinp])
+                        pn = self._g[p[pinp]]._params["name"]
                     else:
                         vi = v[p[0]]
                     if self._childs[n] == -1:  # leaf
